@@ -228,11 +228,21 @@ def reader_loops(fn: FuncInfo) -> List[Tuple[ast.For, ast.Call]]:
     for n in walk_no_nested(fn.node):
         if isinstance(n, ast.For):
             it = norm(n.iter)
-            if it.startswith('self.ParameterDict'):
+            if it.startswith('self.ParameterDict') or _is_key_intersection(n.iter):
                 for c in calls_in(n):
                     if dotted_name(c.func) == 'ReadParameter':
                         out.append((n, c))
     return out
+
+
+def _is_key_intersection(it: ast.AST) -> bool:
+    """`X.InputParameters.keys() & self.ParameterDict.keys()` (either order): same set of validated entries."""
+    if isinstance(it, ast.Call) and dotted_name(it.func) in ('sorted', 'list') and len(it.args) == 1:
+        it = it.args[0]
+    if isinstance(it, ast.BinOp) and isinstance(it.op, ast.BitAnd):
+        sides = {norm(it.left), norm(it.right)}
+        return 'self.ParameterDict.keys()' in sides and any(s.endswith('.InputParameters.keys()') for s in sides)
+    return False
 
 
 def check_reader_loop(ctx, fn: FuncInfo, loop: ast.For, call: ast.Call) -> bool:
@@ -241,6 +251,16 @@ def check_reader_loop(ctx, fn: FuncInfo, loop: ast.For, call: ast.Call) -> bool:
     where = f'{fn.module.rel}:{call.lineno}'
     ok = True
     it = norm(loop.iter)
+    if _is_key_intersection(loop.iter):
+        # order-free form: the entry handed to the reader must be looked up by the loop key
+        a1 = norm(call.args[1]) if len(call.args) >= 2 else ''
+        srcs = {norm(s.value) for s in ast.walk(loop) if isinstance(s, ast.Assign) and norm(s.targets[0]) == a1}
+        tgt = norm(loop.target)
+        if (srcs == {f'self.ParameterDict[{tgt}]'} or a1 == f'self.ParameterDict[{tgt}]') and not guards_of(call, loop):
+            ctx.ok('V3', key, where, f'{it}: every registered entry named in the input map reaches ReadParameter')
+            return True
+        ctx.bad('V3', key, where, f'reader loop over the key intersection does not hand `self.ParameterDict[{tgt}]` to ReadParameter unconditionally')
+        return False
     if it not in ('self.ParameterDict.items()', 'self.ParameterDict.values()'):
         ctx.bad('V3', key, where, f'reader loop iterates `{it}`, not the whole parameter dictionary')
         ok = False
@@ -352,7 +372,21 @@ def check_routing(ctx) -> None:
                         f'input parameter {d.name!r} is not registered in ParameterDict; the shared reader never sees it')
                 allok = False
         ctx.ok('V3', key, fn.where, f'{len(inputs)} inputs; chain ' + ' -> '.join(f.qualname for f in chain))
-    ctx.floor('V3', n_loops, 11, 'canonical reader loops')
+    # every ReadParameter call site in a read_parameters method must sit in a canonical loop over the whole dictionary
+    n_sites = 0
+    for f in repo.all_functions():
+        if f.name != 'read_parameters':
+            continue
+        for c in calls_in(f.node):
+            if dotted_name(c.func) == 'ReadParameter':
+                n_sites += 1
+                canon = any(c2 is c for lp, c2 in reader_loops(f))
+                if not canon:
+                    lp = [x for x in walk_no_nested(f.node) if isinstance(x, ast.For) and any(y is c for y in ast.walk(x))]
+                    ctx.bad('V3', f'{f.qualname}/reader-loop', f'{f.module.rel}:{c.lineno}',
+                            f'ReadParameter is called from a loop over `{norm(lp[-1].iter) if lp else "(no loop)"}`, not over the '
+                            f'whole `self.ParameterDict`: validation/reading no longer follows the registered dictionary')
+    ctx.floor('V3', n_sites, 11, 'ReadParameter call sites in read_parameters methods')
     ctx.analysed['reader_loops'] = n_loops
     ctx.analysed['instantiable_classes'] = len(concrete)
 
